@@ -34,9 +34,12 @@ const (
 	FaultEOF
 	FaultReadError
 	FaultGarbage // the stream from the cut on is replaced by garbage bytes, then EOF
+	FaultFlip    // the single byte at the offset is XORed with garbage[0]; the stream itself is not cut
 )
 
-func (f FaultKind) String() string { return [...]string{"none", "eof", "read-error", "garbage"}[f] }
+func (f FaultKind) String() string {
+	return [...]string{"none", "eof", "read-error", "garbage", "byte-flip"}[f]
+}
 
 var ErrInjectedRead = errors.New("injected read error")
 var ErrInjectedWrite = errors.New("injected write error")
@@ -136,7 +139,7 @@ func (p *Pipe) Write(b []byte) (int, error) {
 }
 
 func (p *Pipe) faultReachedLocked() bool {
-	return p.fault != FaultNone && p.delivered >= p.cutAt
+	return p.fault != FaultNone && p.fault != FaultFlip && p.delivered >= p.cutAt
 }
 
 func (p *Pipe) Read(b []byte) (int, error) {
@@ -174,10 +177,17 @@ func (p *Pipe) Read(b []byte) (int, error) {
 					n = k
 				}
 			}
-			if p.fault != FaultNone && p.delivered+int64(n) > p.cutAt {
+			if p.fault != FaultNone && p.fault != FaultFlip && p.delivered+int64(n) > p.cutAt {
 				n = int(p.cutAt - p.delivered)
 			}
 			copy(b, p.buf[:n])
+			if p.fault == FaultFlip && p.cutAt >= p.delivered && p.cutAt < p.delivered+int64(n) {
+				mask := byte(0x01)
+				if len(p.garbage) > 0 {
+					mask = p.garbage[0]
+				}
+				b[p.cutAt-p.delivered] ^= mask
+			}
 			p.buf = p.buf[n:]
 			p.delivered += int64(n)
 			Seq.Add(1)
